@@ -550,22 +550,26 @@ def utf8Enc (cp : Nat) : Bytes :=
 
 /-- one unit of a string body: an escape or a raw byte; none at the closing quote, a control byte or an unknown escape -/
 def readTok : Bytes → Option (Bytes × Bytes)
-  | 92 :: 117 :: a :: b :: c :: d :: r =>
-    match hexVal? a, hexVal? b, hexVal? c, hexVal? d with
-    | some x, some y, some z, some w =>
-      let cp := ((x * 16 + y) * 16 + z) * 16 + w
-      if 55296 ≤ cp ∧ cp < 57344 then none else some (utf8Enc cp, r)
-    | _, _, _, _ => none
-  | 92 :: c :: r =>
-    if c = 34 ∨ c = 92 ∨ c = 47 then some ([c], r)
-    else if c = 98 then some ([8], r)
-    else if c = 102 then some ([12], r)
-    else if c = 110 then some ([10], r)
-    else if c = 114 then some ([13], r)
-    else if c = 116 then some ([9], r)
-    else none
-  | c :: r => if c = 34 ∨ c = 92 ∨ c.toNat < 32 then none else some ([c], r)
   | [] => none
+  | c :: r =>
+    if c = 92 then
+      match r with
+      | 117 :: a :: b :: c' :: d :: r' =>
+        match hexVal? a, hexVal? b, hexVal? c', hexVal? d with
+        | some x, some y, some z, some w =>
+          let cp := ((x * 16 + y) * 16 + z) * 16 + w
+          if 55296 ≤ cp ∧ cp < 57344 then none else some (utf8Enc cp, r')
+        | _, _, _, _ => none
+      | e :: r' =>
+        if e = 34 ∨ e = 92 ∨ e = 47 then some ([e], r')
+        else if e = 98 then some ([8], r')
+        else if e = 102 then some ([12], r')
+        else if e = 110 then some ([10], r')
+        else if e = 114 then some ([13], r')
+        else if e = 116 then some ([9], r')
+        else none
+      | [] => none
+    else if c = 34 ∨ c.toNat < 32 then none else some ([c], r)
 
 def readStrBody : Nat → Bytes → Option (Bytes × Bytes)
   | 0, _ => none
